@@ -114,6 +114,11 @@ class LFPSDetector(Elaboratable):
         present = Signal()
         m.submodules.present_cdc = FFSynchronizer(self.signaling_received, present, o_domain="ss")
 
+        # Detect the start of a burst. This must live outside of the FSM: an edge detector created inside
+        # a state only clocks its delay register while that state is active, and then compares against a
+        # stale value in the first cycle after the state is re-entered.
+        burst_started = rising_edge_detected(m, present, domain="ss")
+
         # Figure out how large of a counter we're going to need...
         burst_cycles_min    = ceil(self._clock_frequency * self._pattern.burst.t_min)
         burst_cycles_max    = ceil(self._clock_frequency * self._pattern.burst.t_max)
@@ -145,7 +150,7 @@ class LFPSDetector(Elaboratable):
                 m.d.ss += last_iteration_matched.eq(0)
 
                 # If we've just seen the start of a burst, start measuring it.
-                with m.If(rising_edge_detected(m, present, domain="ss")):
+                with m.If(burst_started):
                     m.d.ss += count.eq(1),
                     m.next = "MEASURE_BURST"
 
